@@ -22,7 +22,12 @@ RULE = ("(border) oriented manifold polygon surfaces: quad/tri/mixed grids and c
         "Every case also draws the library-wide switches display_duplicate_attribute_warning / export_edges_in_obj / "
         "complete_faces_from_cells / sort_neighborhoods (border walks are asserted with unsorted neighbourhoods too, see "
         "ASSUMPTIONS), the form of the faces (lists, tuples, numpy rows of int64 / int32 / int16 / uint8) and checks that no call "
-        "changes a switch. non-trivial = >= 2 border loops (huge: a loop of > 1000 vertices). "
+        "changes a switch. Argument spelling (drawn per case, varied per call): extract_border_cycle(mesh, starting_point) with both "
+        "arguments by position / starting_point by keyword / both by keyword, the start as int or numpy int64 / int32 / intp / uint32 / "
+        "int16 / uint8 (narrow types when the id fits), the default start left out or given as None (by position / keyword), also for the "
+        "start that must raise; extract_border_cycle_all / extract_boundary_of_surface with the mesh by position or as mesh=...; the "
+        "only_border detector of the sequences built by keyword / with all five options by position / two by position / numpy scalars "
+        "with corner_order by position, run(mesh=...) . non-trivial = >= 2 border loops (huge: a loop of > 1000 vertices). "
         "(features) meshes built so that the angle between adjacent face normals is prescribed: a seed (single triangle / regular "
         "n-gon pyramid with one prescribed angle on all its interior edges / 'roof' = extruded profile polyline of planar trapezoid "
         "panels, kept as quads or split, with prescribed ridge angles and deleted cells) + up to 20 triangles folded onto free border "
@@ -35,7 +40,14 @@ RULE = ("(border) oriented manifold polygon surfaces: quad/tri/mixed grids and c
         "in-place move of the mesh vertices (anisotropic stretch) followed by a run of the same / a new detector, optional border "
         "extraction calls before and after the detector on the same mesh; sort_neighborhoods on/off and duplicate-attribute switch on/off; "
         "data 1e3 / 1e6 element sizes away from the origin (dot tolerance 1e-9 + 2e-15 x distance/edge length); option values as "
-        "numpy scalars; corner_order also 7, 12, 16, 24, 61, 100; a detector call that raises (PolyLine) before the real run. Expected edge set from own Newell normals. "
+        "numpy scalars; corner_order also 7, 12, 16, 24, 61, 100; a detector call that raises (PolyLine) before the real run. "
+        "Spelling of the detector's options (every detector of a case): the first 0..5 of the documented parameters (only_border, "
+        "flag_corners, corner_order, compute_feature_graph, verbose) by position in the documented order (corner_order by position in "
+        "about half of the cases), the others by keyword; flags as bool / numpy.bool_ / 0-1, corner_order as int / numpy int64 / int32 "
+        "/ int16 / uint8; options equal to their documented default left out or not (down to FeatureEdgeDetector()); run / detect / "
+        "__call__ with the mesh by position or as mesh=... . Besides the behaviour, the public option attributes of the new detector "
+        "must equal what was handed over (ctor:options), and a detector built with flag_corners=False / compute_feature_graph=False "
+        "reports corners None / feature_graph None / corner_point_cloud None. Expected edge set from own Newell normals. "
         "non-trivial = some interior edge has an angle within 1e-2 degree of 36.87 or 60 degrees. distinct = distinct realised cases.")
 ASSUMPTIONS = [
     "input surfaces are oriented manifolds with a simple 1-skeleton (no bow-tie vertices), faces planar and non-degenerate "
@@ -57,6 +69,14 @@ ASSUMPTIONS = [
     "after vertices are moved in place a new run must reflect the new geometry, unless the caller himself stored a 'normals' "
     "attribute beforehand (pre_normals cases are not moved)",
     "vertex coordinates are copied unchanged into the boundary polyline / feature graph (tolerance 0: they are copies)",
+    "documented parameters may be passed by position in the documented order or by their documented names (mesh, starting_point; "
+    "only_border, flag_corners, corner_order, compute_feature_graph, verbose with defaults False, True, 4, True, True as the docstring "
+    "of FeatureEdgeDetector.__init__ states); a flag may be any of bool / numpy.bool_ / 0-1 and an integer any of int / numpy "
+    "integer - the answers must not depend on the spelling",
+    "the options of a detector are readable as detector.only_border / flag_corners / corner_order / compute_feature_graph (in-repo "
+    "callers convert corner orders to angles with feat.corner_order); with flag_corners=False detector.corners stays None, with "
+    "compute_feature_graph=False detector.feature_graph is None (the property's own warning says so) and corner_point_cloud is None "
+    "unless both options are on",
 ]
 
 ACOS08 = math.degrees(math.acos(0.8))     # 36.8698976...
@@ -134,6 +154,93 @@ def build_mesh(M, V, F, E=None, vform="float", fform="list"):
     return M.mesh.SurfaceMesh(raw)
 
 
+# ============================================================================================ how the caller spells the arguments
+
+# FeatureEdgeDetector(only_border=False, flag_corners=True, corner_order=4, compute_feature_graph=True, verbose=True): the documented
+# parameters in the documented order with the documented defaults (docstring of __init__)
+OPT_NAMES = ("only_border", "flag_corners", "corner_order", "compute_feature_graph", "verbose")
+OPT_DEFAULTS = (False, True, 4, True, True)
+FLAG_SPELL = {"py": bool, "np": np.bool_, "int": int}
+INT_SPELL = {"py": int, "np64": np.int64, "np32": np.int32, "np16": np.int16, "npu8": np.uint8, "npintp": np.intp, "npu32": np.uint32}
+START_SPELL = ["py", "py", "np64", "np32", "npintp", "npu32", "np16", "npu8"]
+
+
+def spell_int(form, x):
+    """the integer x as a python int or a numpy integer of the named type (a narrow type only when x fits)"""
+    t = INT_SPELL[form]
+    if t is not int and not (np.iinfo(t).min <= x <= np.iinfo(t).max):
+        t = np.int64
+    return t(x)
+
+
+@st.composite
+def spell_draw(draw):
+    """how the options of the detector are handed over: the first `npos` documented parameters by position (in the documented order), the
+    others by keyword; flags as bool / numpy.bool_ / 0-1; corner_order as int / numpy integer; options equal to the documented
+    default left out or not; the mesh of run / detect / __call__ by position or by keyword"""
+    return {"npos": draw(st.sampled_from([0, 0, 1, 2, 3, 3, 3, 4, 5])), "flags": draw(st.sampled_from(["py", "py", "np", "int"])),
+            "order": draw(st.sampled_from(["py", "py", "np64", "np32", "np16", "npu8"])), "omit": draw(st.sampled_from([False, False, True])),
+            "meshkw": draw(st.sampled_from([False, False, True]))}
+
+
+def detector_arguments(o):
+    """(args, kwargs, labels) of the constructor call for the option dict o of a case"""
+    sp = o.get("spell")
+    if not sp:      # cases stored before the spelling dimension existed: everything by keyword
+        sp = {"npos": 0, "flags": "np" if o.get("optform") == "np" else "py", "order": "np64" if o.get("optform") == "np" else "py", "omit": False}
+    plain = [bool(o["only_border"]), bool(o["flag_corners"]), int(o["corner_order"]), bool(o["graph"]), bool(o.get("verbose", False))]
+    fl = FLAG_SPELL[sp["flags"]]
+    spelled = [fl(plain[0]), fl(plain[1]), spell_int(sp["order"], plain[2]), fl(plain[3]), fl(plain[4])]
+    npos = max(0, min(5, int(sp["npos"])))
+    args = spelled[:npos]
+    kwargs = {OPT_NAMES[i]: spelled[i] for i in range(npos, 5)}
+    omitted = 0
+    if sp.get("omit"):
+        for i in range(npos, 5):
+            if plain[i] == OPT_DEFAULTS[i]:
+                del kwargs[OPT_NAMES[i]]
+                omitted += 1
+        # trailing positional options that equal their default can be left out as well
+        while args and plain[len(args) - 1] == OPT_DEFAULTS[len(args) - 1]:
+            args.pop()
+            omitted += 1
+    labels = [f"spell:ctor:positional={len(args)}", "spell:ctor:flags=" + sp["flags"], "spell:ctor:order=" + sp["order"]]
+    if len(args) >= 3:
+        labels.append("spell:ctor:corner_order-by-position")
+    if omitted:
+        labels.append("spell:ctor:defaults-left-out" + (":all" if not args and not kwargs else ""))
+    return args, kwargs, labels
+
+
+def call_spelled(ctx, sig, f, names, values, nkw):
+    """f(*values) with the last nkw arguments given by keyword (names = the documented parameter names)"""
+    k = len(values) - max(0, min(nkw, len(values)))
+    return ctx.call(sig, f, *values[:k], **{names[i]: values[i] for i in range(k, len(values))})
+
+
+def cycle_spelled(ctx, P, m, s, form):
+    """extract_border_cycle(mesh, starting_point) in one of the ways a caller may write it. form: integer drawn by the case; s None = the
+    default start (left out, or None given explicitly as the documented default)"""
+    nkw = form % 3                                     # 0: all by position, 1: starting_point by keyword, 2: both by keyword
+    if s is None:
+        if (form // 3) % 3 == 0:                       # left out
+            ctx.label("spell:cycle:default-start-left-out" + (":mesh-by-keyword" if nkw == 2 else ""))
+            return call_spelled(ctx, "cycle", P.extract_border_cycle, ("mesh",), [m], 1 if nkw == 2 else 0)
+        ctx.label("spell:cycle:default-start-None" + ("" if nkw == 0 else ":by-keyword"))
+        return call_spelled(ctx, "cycle", P.extract_border_cycle, ("mesh", "starting_point"), [m, None], nkw)
+    sv = spell_int(START_SPELL[(form // 3) % len(START_SPELL)], int(s))
+    ctx.label("spell:cycle:" + ("positional", "start-by-keyword", "mesh+start-by-keyword")[nkw], "spell:cycle:start=" + type(sv).__name__)
+    return call_spelled(ctx, "cycle", P.extract_border_cycle, ("mesh", "starting_point"), [m, sv], nkw)
+
+
+def mesh_spelled(ctx, sig, f, m, form, name):
+    """f(mesh) by position or by keyword"""
+    if form % 3 == 2:
+        ctx.label(f"spell:{name}:mesh-by-keyword")
+        return ctx.call(sig, f, mesh=m)
+    return ctx.call(sig, f, m)
+
+
 # ============================================================================================ border: generators
 
 def _valid_bordered(V, F):
@@ -203,7 +310,8 @@ def border_case(draw, big=False):
         raise AssertionError("generator produced an invalid surface")
     ops = draw(st.lists(st.tuples(st.sampled_from(SEQ_OPS), st.integers(0, 10 ** 4)).map(list), min_size=3, max_size=10))
     return {"V": V, "F": F, "tags": tags, "s0": draw(st.integers(0, 10 ** 4)), "probe": draw(st.integers(0, 10 ** 4)), "ops": ops,
-            "cfg": draw(config_draw()), "fform": draw(st.sampled_from(FFORMS)), "recycle": draw(st.sampled_from([0, 0, 0, 2, 3]))}
+            "cfg": draw(config_draw()), "fform": draw(st.sampled_from(FFORMS)), "recycle": draw(st.sampled_from([0, 0, 0, 2, 3])),
+            "spell": draw(st.integers(0, 10 ** 4))}
 
 
 # around / above 2^10..2^16 and 10^3, 10^4; the two largest are rare (10-14 s per case)
@@ -245,7 +353,8 @@ def border_huge_case(draw):
     ops = draw(st.lists(st.tuples(st.sampled_from(["all", "boundary", "cycle", "cycle_default", "detector"]), st.integers(0, 10 ** 6)).map(list),
                         min_size=2, max_size=4))
     return {"V": V, "F": F, "tags": tags, "starts": [draw(st.integers(0, 10 ** 6)) for _ in range(3)], "ops": ops,
-            "cfg": draw(config_draw()), "fform": draw(st.sampled_from(FFORMS)), "recycle": draw(st.sampled_from([0, 0, 0, 2, 3]))}
+            "cfg": draw(config_draw()), "fform": draw(st.sampled_from(FFORMS)), "recycle": draw(st.sampled_from([0, 0, 0, 2, 3])),
+            "spell": draw(st.integers(0, 10 ** 4))}
 
 
 # ============================================================================================ border: oracle
@@ -407,9 +516,9 @@ def check_boundary(ctx, M, r, B, what):
               f"from polyline vertex ids back to the surface")
 
 
-def check_non_border_start(ctx, P, m, s, what):
+def check_non_border_start(ctx, P, m, s, what, kw=False):
     try:
-        r = P.extract_border_cycle(m, s)
+        r = P.extract_border_cycle(m, starting_point=s) if kw else P.extract_border_cycle(m, s)
         ctx.check(False, "cycle:non-border-start", f"{what}: extract_border_cycle(m,{s}) with {s} not on the border returned {S(r)} instead of raising")
     except Exception as e:
         if type(e).__name__ in ("Violation", "Inconclusive", "HarnessError"):
@@ -464,12 +573,12 @@ def border_sequence(ctx, M, m, B, ops, label):
         if op == "cycle":
             if B.bverts:
                 s = B.bverts[a % len(B.bverts)]
-                ok, r = ctx.call("cycle", P.extract_border_cycle, m, [np.int64, np.int32, np.uint32, np.intp][(a // 3) % 4](s) if a % 3 == 0 else s)
+                ok, r = cycle_spelled(ctx, P, m, s, a)
                 if ok:
                     check_cycle(ctx, r, s, B.loops, B.loop_of, B.bedges, B.eid, what + f" extract_border_cycle(m,{s})")
                     scribble(r)
         elif op == "cycle_default":
-            ok, r = ctx.call("cycle", P.extract_border_cycle, m)
+            ok, r = cycle_spelled(ctx, P, m, None, a)
             if ok:
                 if B.bverts:
                     check_cycle(ctx, r, None, B.loops, B.loop_of, B.bedges, B.eid, what + " extract_border_cycle(m)")
@@ -478,14 +587,14 @@ def border_sequence(ctx, M, m, B, ops, label):
                     ctx.check(isinstance(r, (list, tuple)) and all(len(x) == 0 for x in r), "cycle:closed", f"{what}: closed surface: returned {r!r}")
         elif op == "cycle_bad":
             if others and B.bverts:
-                check_non_border_start(ctx, P, m, others[a % len(others)], what)
+                check_non_border_start(ctx, P, m, others[a % len(others)], what, kw=bool((a // 5) % 2))
         elif op == "all":
-            ok, r = ctx.call("all", P.extract_border_cycle_all, m)
+            ok, r = mesh_spelled(ctx, "all", P.extract_border_cycle_all, m, a, "all")
             if ok:
                 check_all(ctx, r, B, what)
                 scribble(r)
         elif op == "boundary":
-            ok, r = ctx.call("boundary", P.extract_boundary_of_surface, m)
+            ok, r = mesh_spelled(ctx, "boundary", P.extract_boundary_of_surface, m, a, "boundary")
             if ok:
                 check_boundary(ctx, M, r, B, what)
                 if isinstance(r, tuple) and len(r) == 2:
@@ -512,8 +621,21 @@ def border_sequence(ctx, M, m, B, ops, label):
                 ctx.label("seq:detector-skipped-degenerate-face")
                 hist.append("detector-skipped")
                 continue
-            det = P.FeatureEdgeDetector(only_border=True, flag_corners=bool(a % 2), compute_feature_graph=bool(a % 3 == 0), verbose=False)
-            ok, _ = ctx.call("detector", det.run, m)
+            # the options in the documented order (only_border, flag_corners, corner_order, compute_feature_graph, verbose), spelled
+            # by keyword / all by position / the first two by position / numpy scalars with corner_order by position
+            fc, fg, how = bool(a % 2), bool(a % 3 == 0), (a // 6) % 4
+            ctx.label("seq:detector:" + ("keywords", "five-positional", "two-positional", "three-positional-numpy")[how])
+            if how == 0:
+                ok, det = ctx.call("detector", P.FeatureEdgeDetector, only_border=True, flag_corners=fc, compute_feature_graph=fg, verbose=False)
+            elif how == 1:
+                ok, det = ctx.call("detector", P.FeatureEdgeDetector, True, fc, 4, fg, False)
+            elif how == 2:
+                ok, det = ctx.call("detector", P.FeatureEdgeDetector, True, fc, compute_feature_graph=fg, verbose=False)
+            else:
+                ok, det = ctx.call("detector", P.FeatureEdgeDetector, np.bool_(True), np.bool_(fc), np.int64(4), compute_feature_graph=np.bool_(fg), verbose=0)
+            if not ok:
+                return
+            ok, _ = ctx.call("detector", det.run, mesh=m) if (a // 24) % 2 else ctx.call("detector", det.run, m)
             if ok:
                 fe = set(ints(det.feature_edges))
                 ctx.check(fe == set(B.eid[e] for e in B.bedges), "detector:only_border",
@@ -559,6 +681,8 @@ def fn_border(case, ctx):
     ctx.label("fform=" + fform)
     surface_from = lambda V, F: build_mesh(M, V, F, None, "float", fform)
     P = M.processing
+    # how the calls on the fresh meshes are written (cases stored before this dimension existed: all by position)
+    sp = case.get("spell")
 
     # --- A. every border vertex as starting point (drawn one first, on a fresh mesh)
     m = surface_from(V, F)
@@ -568,8 +692,8 @@ def fn_border(case, ctx):
     eid = B.eid = {e: i for i, e in enumerate(medges)}
     if bverts:
         k = case["s0"] % len(bverts)
-        for s in bverts[k:] + bverts[:k]:
-            ok, r = ctx.call("cycle", P.extract_border_cycle, m, s)
+        for i, s in enumerate(bverts[k:] + bverts[:k]):
+            ok, r = ctx.call("cycle", P.extract_border_cycle, m, s) if sp is None else cycle_spelled(ctx, P, m, s, sp + 5 * i)
             if ok:
                 check_cycle(ctx, r, s, loops, loop_of, bedges, eid, f"extract_border_cycle(m,{s})")
     # non-border starting points are documented to raise
@@ -581,7 +705,7 @@ def fn_border(case, ctx):
 
     # --- default start on a fresh mesh
     m = surface_from(V, F)
-    ok, r = ctx.call("cycle", P.extract_border_cycle, m)
+    ok, r = ctx.call("cycle", P.extract_border_cycle, m) if sp is None else cycle_spelled(ctx, P, m, None, sp // 2)
     if ok:
         if bverts:
             check_cycle(ctx, r, None, loops, loop_of, bedges, eid, "extract_border_cycle(m)")
@@ -590,13 +714,13 @@ def fn_border(case, ctx):
 
     # --- B. all cycles, as first call on a fresh mesh
     m = surface_from(V, F)
-    ok, r = ctx.call("all", P.extract_border_cycle_all, m)
+    ok, r = mesh_spelled(ctx, "all", P.extract_border_cycle_all, m, sp or 0, "all")
     if ok:
         check_all(ctx, r, B, "extract_border_cycle_all(fresh mesh)")
 
     # --- C. boundary polyline, as first call on a fresh mesh
     m = surface_from(V, F)
-    ok, r = ctx.call("boundary", P.extract_boundary_of_surface, m)
+    ok, r = mesh_spelled(ctx, "boundary", P.extract_boundary_of_surface, m, (sp or 0) // 3, "boundary")
     if ok:
         check_boundary(ctx, M, r, B, "extract_boundary_of_surface(fresh mesh)")
 
@@ -641,17 +765,18 @@ def fn_border_huge(case, ctx):
     if not ctx.check(set(medges) == B.ref.uedges and len(set(medges)) == len(medges), "edges", "edge container differs from the sides of the faces"):
         return
     B.eid = {e: i for i, e in enumerate(medges)}
-    for a in case["starts"]:
+    sp = case.get("spell")
+    for i, a in enumerate(case["starts"]):
         s = B.bverts[a % len(B.bverts)]
-        ok, r = ctx.call("cycle", P.extract_border_cycle, m, s)
+        ok, r = ctx.call("cycle", P.extract_border_cycle, m, s) if sp is None else cycle_spelled(ctx, P, m, s, sp + 5 * i)
         if ok:
             check_cycle(ctx, r, s, B.loops, B.loop_of, B.bedges, B.eid, f"extract_border_cycle(m,{s}) [longest loop {longest}]")
     m = surface_from(V, F)
-    ok, r = ctx.call("all", P.extract_border_cycle_all, m)
+    ok, r = mesh_spelled(ctx, "all", P.extract_border_cycle_all, m, sp or 0, "all")
     if ok:
         check_all(ctx, r, B, f"extract_border_cycle_all(fresh mesh) [longest loop {longest}]")
     m = surface_from(V, F)
-    ok, r = ctx.call("boundary", P.extract_boundary_of_surface, m)
+    ok, r = mesh_spelled(ctx, "boundary", P.extract_boundary_of_surface, m, (sp or 0) // 3, "boundary")
     if ok:
         check_boundary(ctx, M, r, B, f"extract_boundary_of_surface(fresh mesh) [longest loop {longest}]")
     border_sequence(ctx, M, surface_from(V, F), B, [tuple(o) for o in case["ops"]], "sequence on one mesh:")
@@ -982,7 +1107,7 @@ def feature_case(draw, big=False, huge=False):
     def opts():
         return {"only_border": draw(st.sampled_from([False] * 5 + [True])), "flag_corners": draw(st.sampled_from([True, True, True, False])),
                 "corner_order": draw(st.sampled_from([1, 2, 3, 4, 4, 4, 5, 6, 7, 8, 8, 12, 16, 24, 61, 100])), "graph": draw(st.booleans()),
-                "optform": draw(st.sampled_from(["py", "py", "np"])),
+                "spell": draw(spell_draw()),
                 "via": draw(st.sampled_from(["run", "run", "detect", "call"])), "verbose": draw(st.sampled_from([False] * 4 + [True]))}
     second = draw(st.sampled_from([None, None, None, "same-detector", "moved-same-detector", "moved-new-detector", "other-mesh",
                                    "deepcopy-mesh", "pickle-mesh", "copy-detector"]))
@@ -1110,7 +1235,19 @@ def check_detector(ctx, M, m, det, o, ref, medges, dots, hard, asum, V, fresh, t
             if fresh:
                 bad = [(v, int(cr[v])) for v in range(nV) if v not in fv_exp and int(cr[v]) != 0]
                 ctx.check(not bad, "feat:corners-nonfeature", f"{tag}: corners set at non-feature vertices: {bad[:6]}")
+    else:
+        # flag_corners=False: no corner orders are computed (every detector of a case keeps its options for its whole life)
+        ctx.check(det.corners is None, "feat:corners-off", f"{tag}: flag_corners=False but detector.corners is {type(det.corners).__name__} (opts {o})")
     # ---- feature graph (documented as the feature edges as a polyline)
+    import io, contextlib
+    with contextlib.redirect_stdout(io.StringIO()):        # the properties print a warning when they return None
+        fg_pub, pc_pub = det.feature_graph, det.corner_point_cloud
+    if not o["graph"]:
+        # documented by the warning of the property: None when compute_feature_graph was set to False
+        ctx.check(fg_pub is None, "graph:off", f"{tag}: compute_feature_graph=False but detector.feature_graph is a {type(fg_pub).__name__} (opts {o})")
+    if not (o["graph"] and o["flag_corners"]):
+        ctx.check(pc_pub is None, "graph:off", f"{tag}: compute_feature_graph={o['graph']}, flag_corners={o['flag_corners']} but "
+                                              f"detector.corner_point_cloud is a {type(pc_pub).__name__} (opts {o})")
     if o["graph"]:
         fg = det._feature_graph
         if ctx.check(isinstance(fg, M.mesh.PolyLine), "graph:type", f"{tag}: feature graph is {type(fg).__name__}"):
@@ -1137,22 +1274,39 @@ def check_detector(ctx, M, m, det, o, ref, medges, dots, hard, asum, V, fresh, t
                           f"{tag}: corner point cloud has {len(pc.vertices)} points, {n_exp} feature vertices have an order other than {order}, {order / 2}")
 
 
-def make_detector(M, o):
-    if o.get("optform") == "np":     # the option values as numpy scalars
-        return M.processing.FeatureEdgeDetector(only_border=np.bool_(o["only_border"]), flag_corners=np.bool_(o["flag_corners"]),
-                                                corner_order=np.int64(o["corner_order"]), compute_feature_graph=np.bool_(o["graph"]),
-                                                verbose=bool(o.get("verbose", False)))
-    return M.processing.FeatureEdgeDetector(only_border=o["only_border"], flag_corners=o["flag_corners"], corner_order=o["corner_order"],
-                                            compute_feature_graph=o["graph"], verbose=bool(o.get("verbose", False)))
+def make_detector(M, o, ctx):
+    """the detector for the option dict o, its options spelled as the case says (see spell_draw); None if the constructor failed"""
+    args, kwargs, labels = detector_arguments(o)
+    ctx.label(*labels)
+    ok, det = ctx.call("ctor", M.processing.FeatureEdgeDetector, *args, **kwargs)
+    if not ok:
+        return None
+    # the options are public attributes of the detector (in-repo callers read feat.corner_order to turn corner orders into angles)
+    got = (det.only_border, det.flag_corners, det.corner_order, det.compute_feature_graph)
+    want = (o["only_border"], o["flag_corners"], o["corner_order"], o["graph"])
+    ok = False
+    try:
+        ok = all(bool(g) == bool(w) for g, w in zip(got[:2] + got[3:], want[:2] + want[3:])) and int(got[2]) == int(want[2]) and not isinstance(got[2], (bool, np.bool_))
+    except Exception:
+        pass
+    if not ctx.check(ok, "ctor:options", f"FeatureEdgeDetector(*{args!r}, **{kwargs!r}) has (only_border, flag_corners, corner_order, compute_feature_graph) = {got!r}, "
+                                        f"the documented parameters / defaults give {want!r}"):
+        return None
+    return det
 
 
 def run_quiet(ctx, sig, det, o, m):
     """run the detector (log lines of verbose mode go to a buffer); the option container given to it must not change"""
     import io, contextlib
     before = (det.only_border, det.flag_corners, det.corner_order, det.compute_feature_graph)
+    meshkw = bool((o.get("spell") or {}).get("meshkw"))
+    if meshkw:
+        ctx.label("spell:run:mesh-by-keyword")
     with contextlib.redirect_stdout(io.StringIO()):
-        ok, _ = ctx.call(sig, run_via(det, o), m)
+        ok, ret = ctx.call(sig, run_via(det, o), mesh=m) if meshkw else ctx.call(sig, run_via(det, o), m)
     if ok:
+        if o.get("via") == "call":       # in-repo callers write feat = FeatureEdgeDetector(...)(mesh)
+            ctx.check(ret is det, "feat:call-returns-detector", f"detector(mesh) returned {type(ret).__name__}, in-repo callers use the returned detector")
         after = (det.only_border, det.flag_corners, det.corner_order, det.compute_feature_graph)
         ctx.check(before == after, "feat:options-changed", f"detector options changed during the run: {before} -> {after}")
     return ok
@@ -1258,7 +1412,9 @@ def fn_features(case, ctx):
         ok, _ = ctx.call("face_normals", M.attributes.face_normals, m)
         if not ok:
             return
-    det = make_detector(M, o)
+    det = make_detector(M, o, ctx)
+    if det is None:
+        return
     if case.get("after_raise"):
         # a call that raises (a polyline is not an allowed mesh type) must leave the detector and the switches usable
         ctx.label("after_raise")
@@ -1283,9 +1439,9 @@ def fn_features(case, ctx):
                 [int(d.feature_degrees[v]) for v in range(len(V))])
     if case["rerun"]:
         o2 = case["rerun"]
-        det2 = make_detector(M, o2)
+        det2 = make_detector(M, o2, ctx)
         snap1 = det_snapshot(det)
-        if run_quiet(ctx, "rerun", det2, o2, m):
+        if det2 is not None and run_quiet(ctx, "rerun", det2, o2, m):
             check_detector(ctx, M, m, det2, o2, ref, medges, dots, hard, asum, V, False, f"second run (after a run with {o})", tol=tol)
             last = (det2, o2)
             ctx.check(det_snapshot(det) == snap1, "feat:first-detector-changed",
@@ -1305,8 +1461,8 @@ def fn_features(case, ctx):
         m2 = feature_mesh(M, V2, F, E, "float")
         _, _, dots2, asum2 = own_geometry(V2, F, ref)
         snap1 = det_snapshot(last[0])
-        d3 = make_detector(M, o)
-        if run_quiet(ctx, "run-other-mesh", d3, o, m2):
+        d3 = make_detector(M, o, ctx)
+        if d3 is not None and run_quiet(ctx, "run-other-mesh", d3, o, m2):
             check_detector(ctx, M, m2, d3, o, ref, [tuple(ints(e)) for e in m2.edges], dots2, set(key(e) for e in E), asum2, V2, True, "run on a second, independent mesh", tol=tol)
             ctx.check(det_snapshot(last[0]) == snap1, "feat:first-detector-changed", "the containers of the first detector changed when another detector ran on another mesh")
             fa = m.edges.get_attribute("feature")
@@ -1322,8 +1478,8 @@ def fn_features(case, ctx):
         for i, p in enumerate(V2):
             m.vertices[i] = M.Vec(p)
         _, _, dots2, asum2 = own_geometry(V2, F, ref)
-        d3, o3 = last if second == "moved-same-detector" else (make_detector(M, o), o)
-        if run_quiet(ctx, "rerun-moved", d3, o3, m):
+        d3, o3 = last if second == "moved-same-detector" else (make_detector(M, o, ctx), o)
+        if d3 is not None and run_quiet(ctx, "rerun-moved", d3, o3, m):
             check_detector(ctx, M, m, d3, o3, ref, medges, dots2, hard, asum2, V2, False, f"run after moving the vertices of the mesh (stretch {st3.tolist()})", tol=tol)
         if B is not None:
             B = BorderRef(V2, F)
@@ -1339,8 +1495,8 @@ def fn_features(case, ctx):
         if m2 is not None:
             ctx.label("second=" + second)
             snap1 = det_snapshot(last[0])
-            d3 = make_detector(M, o)
-            if run_quiet(ctx, "run-copy", d3, o, m2):
+            d3 = make_detector(M, o, ctx)
+            if d3 is not None and run_quiet(ctx, "run-copy", d3, o, m2):
                 check_detector(ctx, M, m2, d3, o, ref, medges, dots, hard, asum, V, False, f"run on a {second} of the mesh", tol=tol)
                 ctx.check(det_snapshot(last[0]) == snap1 and mesh_snapshot(m) == snap, "feat:first-detector-changed",
                           "the first detector / mesh changed when a copy of the mesh was processed")
